@@ -157,6 +157,7 @@ class Kernel:
         self.results: dict[int, list[str]] = {}
         self.workers: dict[int, Worker] = {}
         self.gates: dict[tuple[int, int], Any] = {}
+        self.get_scopes: dict[int, Any] = {}            # label of a suspended async lookup -> its cancel scope
         self.calls: dict[tuple[int, int], int] = {}
         self.tdlog: list[str] = []
         self.mid: dict[int, tuple[int, Any]] = {}       # context -> (callback during which its scope is cancelled, scope)
@@ -186,7 +187,12 @@ class Kernel:
                 c, n = begin()
                 if spec["gated"]:
                     gate = kern.gates[(c, fid)] = anyio.Event()
-                    await gate.wait()
+                    try:
+                        await gate.wait()
+                    except anyio.get_cancelled_exc_class():
+                        if kern.gates.get((c, fid)) is gate:        # the lookup that called the factory was cancelled
+                            del kern.gates[(c, fid)]
+                        raise
                 else:
                     await checkpoint()
                 if n < spec["failFirst"]:
@@ -572,6 +578,10 @@ class Kernel:
                 late = sorted((t, r) for (j, t, r) in self.helper_results[n_help:] if j != i)
                 res += [f"task {t} [{', '.join(r)}]" for t, r in late]
                 rec: dict[str, Any] = {"res": res, "ev": self.events[n_ev:]}
+                if op["op"] == "cancelget":
+                    nxt = [t for (j, c, f, t) in self.gen_calls if j == i and c == op["c"]]
+                    if nxt:
+                        rec["next"] = nxt[0]
                 if op["op"] == "finish":
                     nxt = [t for (j, c, f, t) in self.gen_calls if j == i and c == op["c"] and f == op["fid"]]
                     if nxt:
@@ -591,6 +601,14 @@ class Kernel:
                 self.results[i] = ["badOp"]
             else:
                 gate.set()
+                self.results[i] = []
+            return
+        if kind == "cancelget":
+            sc = self.get_scopes.get(op["lid"])
+            if sc is None:
+                self.results[i] = ["badOp"]
+            else:
+                sc.cancel()
                 self.results[i] = []
             return
         if kind == "new" and op["c"] in self.ctxs:
@@ -815,15 +833,22 @@ class Worker:
             if op == "get":
                 # run in a helper task so that a suspended lookup does not block the worker
                 async def helper() -> None:
+                    lid = cmd.get("lid", cmd["t"])
                     ACTIVE_CTX.set(cmd["c"])
-                    ACTIVE_TASK.set(cmd.get("lid", cmd["t"]))
-                    try:
-                        v = await target.get_resource(TYPES[cmd["ty"]], cmd["name"], optional=cmd["opt"])
-                        r = [val_name(v)]
-                    except BaseException as e:  # noqa: BLE001
-                        if type(e).__name__ in ("Cancelled", "CancelledError"):
-                            raise
-                        r = kern.exc_out(e, (TYPES[cmd["ty"]], cmd["name"]))
+                    ACTIVE_TASK.set(lid)
+                    with anyio.CancelScope() as sc:
+                        kern.get_scopes[lid] = sc
+                        try:
+                            v = await target.get_resource(TYPES[cmd["ty"]], cmd["name"], optional=cmd["opt"])
+                            r = [val_name(v)]
+                        except BaseException as e:  # noqa: BLE001
+                            if type(e).__name__ in ("Cancelled", "CancelledError"):
+                                if not sc.cancel_called:
+                                    raise
+                                r = ["raisedExc cancelled"]      # the caller gave up (`cancelget`)
+                            else:
+                                r = kern.exc_out(e, (TYPES[cmd["ty"]], cmd["name"]))
+                    kern.get_scopes.pop(lid, None)
                     if kern.opidx == cmd["i"]:
                         kern.results[cmd["i"]] = r
                     kern.helper_results.append((cmd["i"], cmd.get("lid", cmd["t"]), r))
